@@ -33,8 +33,27 @@ use s2n_quic_core::{
 use std::net::SocketAddr;
 
 /// a congestion controller that only keeps the byte ledger
+std::thread_local! {
+    /// every call the manager makes on a congestion controller, with its arguments:
+    /// [kind; path; a; b; c; d]  (1 on_packet_sent: time_sent, bytes, app_limited (0 None, 1 false, 2 true);
+    ///  2 on_ack: newest acked time_sent, bytes, ack receive time, estimator has a first RTT sample;
+    ///  3 on_packet_lost: lost bytes, persistent_congestion, new_loss_burst, timestamp;
+    ///  4 on_packet_discarded: bytes)
+    static CC_CALLS: core::cell::RefCell<Vec<i128>> = core::cell::RefCell::new(Vec::new());
+}
+
+fn cc_call(kind: i128, path: u8, a: i128, b: i128, c: i128, d: i128) {
+    CC_CALLS.with(|l| l.borrow_mut().extend([kind, path as i128, a, b, c, d]));
+}
+
+fn time_us(t: Timestamp) -> i128 {
+    unsafe { t.as_duration().as_micros() as i128 }
+}
+
 #[derive(Clone, Copy, Debug, Default, PartialEq)]
 pub struct CountingCc {
+    /// which path this controller belongs to
+    pub id: u8,
     pub sent: u64,
     pub acked: u64,
     pub lost: u64,
@@ -51,7 +70,11 @@ impl congestion_controller::Endpoint for CountingEndpoint {
         &mut self,
         _path_info: congestion_controller::PathInfo,
     ) -> Self::CongestionController {
-        CountingCc::default()
+        // the driver creates the first path's controller itself; the endpoint is asked for the second
+        CountingCc {
+            id: 1,
+            ..Default::default()
+        }
     }
 }
 
@@ -77,12 +100,20 @@ impl congestion_controller::CongestionController for CountingCc {
 
     fn on_packet_sent<Pub: CcPublisher>(
         &mut self,
-        _time_sent: Timestamp,
+        time_sent: Timestamp,
         sent_bytes: usize,
-        _app_limited: Option<bool>,
+        app_limited: Option<bool>,
         _rtt_estimator: &RttEstimator,
         _publisher: &mut Pub,
     ) {
+        cc_call(
+            1,
+            self.id,
+            time_us(time_sent),
+            sent_bytes as i128,
+            app_limited.map_or(0, |b| 1 + b as i128),
+            0,
+        );
         self.sent += sent_bytes as u64;
     }
 
@@ -97,14 +128,22 @@ impl congestion_controller::CongestionController for CountingCc {
 
     fn on_ack<Pub: CcPublisher>(
         &mut self,
-        _newest_acked_time_sent: Timestamp,
+        newest_acked_time_sent: Timestamp,
         bytes_acknowledged: usize,
         _newest_acked_packet_info: Self::PacketInfo,
-        _rtt_estimator: &RttEstimator,
+        rtt_estimator: &RttEstimator,
         _random_generator: &mut dyn random::Generator,
-        _ack_receive_time: Timestamp,
+        ack_receive_time: Timestamp,
         _publisher: &mut Pub,
     ) {
+        cc_call(
+            2,
+            self.id,
+            time_us(newest_acked_time_sent),
+            bytes_acknowledged as i128,
+            time_us(ack_receive_time),
+            rtt_estimator.first_rtt_sample().is_some() as i128,
+        );
         self.acked += bytes_acknowledged as u64;
     }
 
@@ -112,12 +151,20 @@ impl congestion_controller::CongestionController for CountingCc {
         &mut self,
         lost_bytes: u32,
         _packet_info: Self::PacketInfo,
-        _persistent_congestion: bool,
-        _new_loss_burst: bool,
+        persistent_congestion: bool,
+        new_loss_burst: bool,
         _random_generator: &mut dyn random::Generator,
-        _timestamp: Timestamp,
+        timestamp: Timestamp,
         _publisher: &mut Pub,
     ) {
+        cc_call(
+            3,
+            self.id,
+            lost_bytes as i128,
+            persistent_congestion as i128,
+            new_loss_burst as i128,
+            time_us(timestamp),
+        );
         self.lost += lost_bytes as u64;
     }
 
@@ -132,6 +179,7 @@ impl congestion_controller::CongestionController for CountingCc {
     fn on_mtu_update<Pub: CcPublisher>(&mut self, _max_data_size: u16, _publisher: &mut Pub) {}
 
     fn on_packet_discarded<Pub: CcPublisher>(&mut self, bytes_sent: usize, _publisher: &mut Pub) {
+        cc_call(4, self.id, bytes_sent as i128, 0, 0, 0);
         self.discarded += bytes_sent as u64;
     }
 
@@ -305,7 +353,7 @@ impl recovery::Context<Cfg> for Ctx<'_> {
 ///   [7; ..]                                          on_retry_packet(path 0) (client only, otherwise ignored)
 ///   [8; ..]                                          the peer has validated our address (Path::on_peer_validated)
 /// output per op:
-///   [code; n_lost; lost..; n_hulls; (start,end)..; sent0; acked0; lost0; disc0; sent1; acked1; lost1; disc1;
+///   [code; n_lost; lost..; n_hulls; (start,end)..; n_calls; (kind,path,a,b,c,d)..  (controller calls in order); sent0; acked0; lost0; disc0; sent1; acked1; lost1; disc1;
 ///    armed; expiration_us; pto_backoff; requires_probe; smoothed0; latest0; min0; first0; smoothed1; latest1; min1; first1]
 pub fn run(input: &[i128]) -> Vec<i128> {
     let mut out = vec![];
@@ -393,6 +441,7 @@ pub fn run(input: &[i128]) -> Vec<i128> {
     let ids = [unsafe { path::Id::new(0) }, unsafe { path::Id::new(if is_client { 0 } else { 1 }) }];
     assert!(!path_manager[ids[1]].at_amplification_limit());
 
+    CC_CALLS.with(|l| l.borrow_mut().clear());
     let mut manager = Manager::<Cfg>::new(space);
     let mut last_pn: Option<u64> = None;
     // an ack-eliciting packet was sent and the transmission burst was not completed yet
@@ -537,6 +586,9 @@ pub fn run(input: &[i128]) -> Vec<i128> {
             out.push(s as i128);
             out.push(e as i128);
         }
+        let calls = CC_CALLS.with(|l| core::mem::take(&mut *l.borrow_mut()));
+        out.push((calls.len() / 6) as i128);
+        out.extend(calls);
         for (k, id) in ids.iter().enumerate() {
             // the client has a single path: the second block stays at its initial values
             let cc = if is_client && k == 1 {
